@@ -246,6 +246,11 @@ def covered_object(a, msg):
     for fid in ("c03-prefix-unicode-ncname",):
         pred, where = O.KNOWN[fid]
         if kind in where.get(w, ()) and pred(fake):
+            # the finding is about the prefix alone: the same object under the same map with the offending prefixes
+            # replaced by declarable ones must be written correctly, else the failure is of another kind
+            ok_map = [[("zq%d" % i if (p and not S.is_ncname(p)) else p), u] for i, (p, u) in enumerate(a["ns_map"])]
+            if check_object({**a, "ns_map": ok_map}) is not None:
+                return None
             return fid
     return None
 
